@@ -41,7 +41,7 @@ class Job:
                  defines=(), unwind=6, shim=True, union_struct=False,
                  kind="proof", canary=False, timeout=600, dfcc=None,
                  functions=(), bound="", cbmc_flags=(), harness_unwind=160,
-                 native_sources=None, expect_fail=None, group=None):
+                 native_sources=None, expect_fail=None, group=None, require=()):
         self.name = name
         self.harness = harness if os.path.isabs(harness) else os.path.join(VERIF, "harness", harness)
         self.entry = entry
@@ -62,6 +62,7 @@ class Job:
         self.native_sources = native_sources
         self.expect_fail = expect_fail  # regex: obligations that MUST fail (negative control)
         self.group = group or entry
+        self.require = list(require)  # regexes: obligations that must exist and be SUCCESS
 
 
 def sh(cmd, timeout=None, cwd=None, env=None, mem=True):
@@ -118,7 +119,7 @@ def trace_inputs(trace, entry=None):
     """named harness inputs from a CBMC json trace: last assignment per lhs"""
     vals = {}
     for st in trace or []:
-        if st.get("stepType") != "assignment":
+        if st.get("stepType") != "assignment" or st.get("assignmentType") == "actual-parameter":
             continue
         lhs = st.get("lhs")
         v = st.get("value", {})
@@ -267,6 +268,15 @@ def run_job(job, canary=False):
             ent["inputs"] = {("%s[%d]" % k if k[1] >= 0 else k[0]): v
                              for k, v in trace_inputs(r.get("trace"), job.entry).items()}
         failed.append(ent)
+    for rq in job.require:
+        if not any(re.search(rq, (r.get("property") or "") + " " + (r.get("description") or "")) and
+                   r.get("status") == "SUCCESS" for r in results) and not canary:
+            res["status"] = "error"
+            res["detail"] = "required obligation missing or not discharged: " + rq
+            res["seconds"] = round(time.time() - t0, 2)
+            res["failed"] = failed
+            if not failed:
+                return res
     res["reach"] = reach
     res["failed"] = failed
     res["seconds"] = round(time.time() - t0, 2)
